@@ -149,7 +149,7 @@ class P(Prop):
 
     def exhaustive_scopes(self, tier):
         return ["all 38 column layouts (id_E,id_N[,id_U][,id_T] a permutation of 0..k-1) x separators {',', ';', ' '} x h in {0,1} x {ENU, GEO, ECEF}, "
-                "%d random tracks each" % (1 if tier == "quick" else 4),
+                "%d random tracks each" % (2 if tier == "quick" else 8),
                 "fixed-point rendering {:10.3f}/{:20.10f}/{:3.8f} of every integer -2100..2100 and of 10^k-1, 10^k, 10^k+1 (k <= 12), both signs"]
 
     def rand_stamp(self, rng):
@@ -249,7 +249,7 @@ class P(Prop):
                 out.append({"kind": "fix", "w": w, "d": d, "ns": [rng.randrange(-10 ** rng.randrange(1, 15), 10 ** rng.randrange(1, 15)) for _ in range(50)]})
         # --- timestamps
         for f in TIME_FMTS:
-            for _ in range(40 if not thorough else 400):
+            for _ in range(150 if not thorough else 1500):
                 out.append({"kind": "time", "pfmt": f, "rfmt": f, "t": self.rand_stamp(rng)})
         for _ in range(30):
             out.append({"kind": "time", "pfmt": ISO_FMT, "rfmt": DEFAULT_FMT, "t": self.rand_stamp(rng)})
@@ -258,11 +258,11 @@ class P(Prop):
             for sep in (",", ";", " "):
                 for h in (0, 1):
                     for srid in SRIDS:
-                        for _ in range(1 if not thorough else 4):
+                        for _ in range(2 if not thorough else 8):
                             out.append(self.csv_case(rng, ids, sep, h, srid))
         L = self.layouts()
         # random CSV: formats, off-lattice values, features, blank separator with a blank-free time format
-        for _ in range(1500 if not thorough else 30000):
+        for _ in range(6000 if not thorough else 60000):
             ids = rng.choice(L)
             srid = rng.choice(SRIDS)
             sep = rng.choice([",", ";", ";", ",", " ", "\t", "|"])
@@ -285,7 +285,7 @@ class P(Prop):
             c["rows"][rng.randrange(3)][rng.randrange(2)] = rng.choice([-999999000, -999999999, -999999500, -1000000000, -999998999])
             out.append(c)
         # --- GPX
-        for _ in range(300 if not thorough else 6000):
+        for _ in range(1500 if not thorough else 15000):
             srid = rng.choice(["GEO", "GEO", "GEO", "ENU", "ECEF"])
             rows, q = self.rand_rows(rng, srid, q=rng.choice([8, 8, None]) if srid == "GEO" else rng.choice([3, None]))
             if srid != "GEO" and rng.random() < 0.5:
@@ -301,7 +301,7 @@ class P(Prop):
             for h in (0, 1):
                 for _ in range(15 if not thorough else 150):
                     out.append(self.net_case(rng, sep, h))
-        for _ in range(300 if not thorough else 6000):
+        for _ in range(2000 if not thorough else 20000):
             out.append(self.net_case(rng))
         for _ in range(40):
             c = self.net_case(rng, hdrR=rng.choice([0, 1, 2]))
@@ -311,7 +311,7 @@ class P(Prop):
             c["posdir"] = -1
             out.append(c)
         # --- WKT
-        for _ in range(400 if not thorough else 8000):
+        for _ in range(2000 if not thorough else 20000):
             srid = rng.choice(["ENU", "GEO"])
             q = 3 if srid == "ENU" else 8
             n = rng.choice([1, 2, 3, 5, 8])
@@ -638,20 +638,20 @@ class P(Prop):
         return None
 
     @staticmethod
-    def coord_tol(srid, kind):
-        if kind == "gpx":
-            return 0.5e-8
-        return 0.5e-8 if srid == "GEO" else 0.5e-3
+    def coord_tol(srid, axis):
+        """the written precision the property promises: 1 mm for metric values (ENU, ECEF, heights), 1e-8 degree for
+        longitude / latitude; read-back must lie within half a unit of it"""
+        return 0.5e-8 if (srid == "GEO" and axis < 2) else 0.5e-3
 
     def check_rows(self, want, got, q, srid, kind, useZ, useT, what):
         if isinstance(got, str):
             return "%s: reading the written file raised %s" % (what, got)
         if len(got) != len(want):
             return "%s: %d observations written, %d read back" % (what, len(want), len(got))
-        tol = self.coord_tol(srid, kind)
         for i, (w, g) in enumerate(zip(want, got)):
             for a in range(3 if useZ else 2):
                 x = cval(w[a], q)
+                tol = self.coord_tol(srid, a)
                 # the written precision: half a unit of the last printed decimal (plus the float spacing of the value itself)
                 if abs(g[a] - x) > tol + 4e-16 * max(1.0, abs(x)):
                     return "%s: observation %d coordinate %d written %r read back %r" % (what, i, a, x, g[a])
